@@ -43,6 +43,9 @@ type Result struct {
 	Sample any                 `json:"s,omitempty"`
 	Inconc string              `json:"inc,omitempty"`
 	Evals  int                 `json:"e,omitempty"` // evaluations represented by this case (default 1)
+	// DK holds additional distinct keys (key -> non-trivial) when one case
+	// index stands for several evaluations.
+	DK map[string]bool `json:"dk,omitempty"`
 	// Restart asks for a fresh worker process after this case (e.g. the case
 	// left goroutines behind); the worker exits with status 77 after
 	// journalling the result and the supervisor carries on with the next case.
@@ -226,6 +229,9 @@ func Run(r *evidence.Run, o Opts) {
 		r.Eval(n)
 		if res.Key != "" {
 			r.Distinct(o.Phase+"/"+res.Key, res.NT)
+		}
+		for k, nt := range res.DK {
+			r.Distinct(o.Phase+"/"+k, nt)
 		}
 		for _, v := range res.Viol {
 			r.Violation(v.Key, v.What, map[string]any{"phase": o.Phase, "case": res.I, "detail": v.Witness})
